@@ -123,26 +123,26 @@ func init() {
 func init() {
 	prop(&PropInfo{ID: "C08", Level: "other",
 		Explanation: "(RAFT-FIDELITY) the server archetypes of the generated raftkvs.go, their table entries and the operator definitions are section by section the image of raftkvs.tla, so the implementation takes exactly the steps of the specification the invariants are model-checked for (client sections are ignored; this is the basis of the safety argument, not a logical necessary condition). Also decides one structural clause outside the generated code that the Raft safety invariants need: in raftkvs/bootstrap each of the 12 per-server state variables (state, currentTerm, log, commitIndex, nextIndex, matchIndex, votedFor, votesResponded, votesGranted, leader, sm, smDomain) is bound in all five archetype contexts of a server to MakeLocalShared() of one LocalSharedManager created once per server (RAFT-WIRING), and that shared cell is accessed under strict two-phase locking with a capacity-1 lock (LS-2PL, LS-CAP1). If e.g. votedFor were per-archetype, a server could vote for two candidates in one term. Fidelity of raftkvs.go to raftkvs.tla is reported under C02.",
-		NotDecided:  "the invariants themselves (ElectionSafety, LogMatching, LeaderCompleteness, StateMachineSafety, LeaderAppendOnly) over all schedules: they need the spec-level argument (model checking) plus C02 fidelity; nothing here decides them.",
+		NotDecided:  "the invariants themselves (ElectionSafety, LogMatching, LeaderCompleteness, StateMachineSafety, LeaderAppendOnly) over all schedules: they need the spec-level argument (model checking) plus fidelity; nothing here decides them. RAFT-DECISION pins the specification's safety-critical decisions (quorum, vote granting, log-consistency check, commit rule, term adoption) so that a change made consistently in raftkvs.tla and raftkvs.go is still reported.",
 		Assumptions: commonAssumptions})
 }
 
 func init() {
-	const basis = " Nothing here decides the invariant itself over all schedules: that needs the spec-level argument (model checking of the specification) of which this fidelity is the implementation-side half."
+	const basis = " Nothing here decides the invariant itself over all schedules: that needs the spec-level argument (model checking of the specification), of which these rules are the implementation-side half (the Go takes the specification's steps) plus a table that pins the specification's safety-critical decisions."
 	prop(&PropInfo{ID: "C09", Level: "other",
-		Explanation: "(KV-FIDELITY) every critical section of the generated Raft key-value store - the server archetypes (an entry is answered only when it is applied at the leader, Gets go through the log) and the client archetype (request numbering, retry on failure / timeout, filtering of stale and duplicate responses by idx) -, every archetype table entry and every operator definition is the image of raftkvs.tla; (KV-WIRING) the hand-written client bootstrap numbers, submits and collects requests one at a time through the channels the archetype reads and writes. Linearizability is argued for the specification; the implementation inherits it only while it takes the specification's steps.",
-		NotDecided:  "linearizability of all concurrent histories (a predicate over histories, schedules and crashes)." + basis,
+		Explanation: "(KV-FIDELITY) every critical section of the generated Raft key-value store - servers and client -, every archetype table entry and every operator definition is the image of raftkvs.tla. (RAFT-DECISION) a protocol table over the specification itself: quorum = strict majority, vote granting (current term, up-to-date log compared with the voter's whole log, one vote per term), term adoption, the AppendEntries consistency check / truncate / append, match-index bookkeeping from acknowledgements, commit only of current-term entries agreed by a quorum, one-by-one application, a client is answered exactly when its entry is applied at the leader with the request's own index, the client numbers requests and drops responses whose index is not the current one, retries only on refusal / suspicion / timeout. Conditions are compared as boolean functions over their atoms (truth tables), so a change made consistently in the specification and the Go is still a mismatch. (RAFT-WIRING, LS-2PL, LS-CAP1) the per-server state, including the applied store sm / smDomain, is one copy shared by the server's five archetypes under strict 2PL.",
+		NotDecided:  "linearizability of all concurrent histories (a predicate over histories, schedules and crashes); duplicate execution of retried requests (the specification itself does not deduplicate: observed, not decided)." + basis,
 		Assumptions: commonAssumptions})
 	prop(&PropInfo{ID: "C14", Level: "other",
-		Explanation: "(PB-FIDELITY) every critical section of the generated primary-backup store - synchronous replication to every live backup before the primary answers, synchronisation of a new primary to the highest version before it serves, version numbering, client retry - and every table entry / operator definition is the image of pbkvs.tla; (PB-WIRING) replicas and clients are bound to resources of the kinds the specification's mapping macros stand for.",
-		NotDecided:  "ConsistencyOK and linearizability over all schedules and crash sequences." + basis,
+		Explanation: "(PB-FIDELITY) every critical section, table entry and operator definition of the generated primary-backup store is the image of pbkvs.tla. (PB-DECISION) protocol table over the specification: the primary answers a Put only after every backup acknowledged or is detected as failed with nothing in flight, replication goes to every other replica, every Put gets the next version, a new primary synchronises (asks everyone, adopts strictly newer versions, repeats) before it serves, backups apply replicated Puts and only strictly newer synchronisation values, clients drop responses with a stale id and retry only on a detected failure. (RESP-RENDEZVOUS) the client front end's response channel is a rendezvous channel, so the late answer of an abandoned request cannot be handed to the next call.",
+		NotDecided:  "ConsistencyOK and linearizability over all schedules and crash sequences; the stub leader election of the Go deployment." + basis,
 		Assumptions: commonAssumptions})
 	prop(&PropInfo{ID: "C15", Level: "other",
-		Explanation: "(LOCK-FIDELITY) every critical section of the generated lock service - grant on an empty queue, grant to the next in queue on unlock, append / tail of the queue, the client's wait for the grant - and every table entry / operator definition is the image of locksvc.tla.",
+		Explanation: "(LOCK-FIDELITY) every critical section, table entry and operator definition of the generated lock service is the image of locksvc.tla. (LOCK-DECISION) protocol table over the specification: a request is granted at once exactly when the queue is empty, every requester is appended to the queue, an unlock removes the head and passes the lock to the new head if there is one, the server sends nothing else, a client enters only on a grant and marks itself holder in that step, releases before telling the server.",
 		NotDecided:  "mutual exclusion and FIFO service over all interleavings and delivery orders." + basis,
 		Assumptions: commonAssumptions})
 	prop(&PropInfo{ID: "C16", Level: "other",
-		Explanation: "(SYS-FIDELITY) every critical section, table entry and operator definition of the generated dqueue, load balancer, proxy, shared counter, gcounter, shopcart, nested-CRDT and replicated-KV systems is the image of its specification; in particular every assertion written in a specification is present, with the same condition, in the generated section.",
+		Explanation: "(SYS-FIDELITY) every critical section, table entry and operator definition of the generated dqueue, load balancer, proxy, shared counter, gcounter, shopcart, nested-CRDT and replicated-KV systems is the image of its specification; in particular every assertion written in a specification is present, with the same condition, in the generated section. (SYS-DECISION) protocol tables over the specifications: the proxy accepts only the reply of the backend being tried for the request in hand, moves on only on a detected failure and reports failure only after the last backend; request/response pairing of the queue and the load balancer (own name, own mailbox, round robin, answer to the asking client); the nested CRDT's first-touch snapshot, merge-on-commit, broadcast of committed state only. The 2PC rules of C11 (the shared counter rests on the 2PC resource) and the CRDT value-type rules of C12 (counters never decrease, equal knowledge reads equal values) are decided under this property too.",
 		NotDecided:  "the invariants (exactly-once hand-off in order, buffer bounds, proxy accuracy, counter total, convergence, monotonicity) over all schedules and crash sequences." + basis,
 		Assumptions: commonAssumptions})
 }
